@@ -121,21 +121,21 @@ Section Generic.
                  ((1 <= m)%nat /\ exists lvl, nth_error S (Z.to_nat n - 1) = Some (21, [lvl; 0]))).
   Proof.
     induction l as [|r rest IH]; intros seq acc trail d st n Hall Hseq Hlen Hacc H.
-    - simpl in H. inversion H; subst. exists 0%nat. rewrite Z.add_0_r.
-      repeat split; [apply genuine_0; exact Hlen| |lia]. intros _. left. reflexivity.
-    - inversion Hall as [|? ? Har Hrest]; subst.
+    - simpl in H. inversion H; subst. exists 0%nat. split; [lia|].
+      split; [apply genuine_0; exact Hlen|]. split; [reflexivity|]. intros _. left. reflexivity.
+    - inversion Hall as [|x xs Har Hrest]. subst x xs.
       assert (Stop : forall code, code <> 1 -> (d, st, n) = (deliv (Z.to_nat seq), code, seq) ->
                 exists m, n = seq + Z.of_nat m /\ genuine seq m (r :: rest) /\ d = deliv (Z.to_nat n) /\
                   (st = 1 -> length (r :: rest) = m \/
                      ((1 <= m)%nat /\ exists lvl, nth_error S (Z.to_nat n - 1) = Some (21, [lvl; 0])))).
-      { intros code Hc E. inversion E; subst. exists 0%nat. rewrite Z.add_0_r.
-        repeat split; [apply genuine_0; exact Hlen| |lia]. intro; contradiction. }
+      { intros code Hc E. inversion E; subst. exists 0%nat. split; [lia|].
+        split; [apply genuine_0; exact Hlen|]. split; [reflexivity|]. intro; contradiction. }
       simpl in H.
-      destruct (negb (r_vers r =? c_vers c)) eqn:Ev; [apply (Stop 170); [lia|congruence]|].
-      destruct (r_claim r >? maxCiphertext); [apply (Stop 122); [lia|congruence]|].
-      destruct (r_actual r + total B rest + trail <? r_claim r); [apply (Stop 2); [lia|congruence]|].
+      destruct (negb (r_vers r =? c_vers c)) eqn:Ev; [apply (Stop 170); [lia|(symmetry; exact H) || congruence]|].
+      destruct (r_claim r >? maxCiphertext); [apply (Stop 122); [lia|(symmetry; exact H) || congruence]|].
+      destruct (r_actual r + total B rest + trail <? r_claim r); [apply (Stop 2); [lia|(symmetry; exact H) || congruence]|].
       destruct (decrypt B open c seq r) as [p|] eqn:Ed.
-      2:{ apply (Stop (fail_code B r)); [|congruence]. unfold fail_code.
+      2:{ apply (Stop (fail_code B r)); [|(symmetry; exact H) || congruence]. unfold fail_code.
           destruct (5 + r_claim r >? maxPlaintext); [lia|]. destruct (r_typ r =? 23); [lia|].
           destruct (r_typ r =? 22); lia. }
       apply negb_false_iff, Z.eqb_eq in Ev.
@@ -154,37 +154,37 @@ Section Generic.
       { intros code Hc Ht E. inversion E; subst d st n. exists 1%nat. split; [lia|].
         split; [apply (genuine_step _ _ _ _ p Hseq Hn Hr); apply genuine_0; lia|].
         split.
-        - rewrite E1, Hd. apply negb_true_iff in Ht. rewrite Ht, app_nil_r. reflexivity.
+        - rewrite E1, Hd. apply negb_true_iff in Ht. rewrite Ht, app_nil_r. exact Hacc.
         - intro Hst. right. split; [lia|]. destruct (Hc Hst) as [lvl [Hp Hty]]. exists lvl.
           rewrite E1. simpl. rewrite Nat.sub_0_r. rewrite Hn, Hp, Hty. reflexivity. }
       destruct (blen p >? maxPlaintext) eqn:Eo; [apply Z.gtb_lt in Eo; lia|].
       destruct (r_typ r =? 23) eqn:E23.
       { (* application data: delivered, continue *)
         destruct (IH (seq + 1) (acc ++ p) trail d st n Hrest ltac:(lia) ltac:(lia)) as [m [Hm [Hg [Hdd Hs]]]]; [|exact H|].
-        - rewrite E1, Hd, E23, Hacc. reflexivity.
+        - rewrite E1, Hd, Hacc. reflexivity.
         - exists (Datatypes.S m). split; [lia|]. split; [apply (genuine_step _ _ _ _ p Hseq Hn Hr Hg)|].
           split; [exact Hdd|]. intro Hst. destruct (Hs Hst) as [Hl|[Hm1 Hx]]; [left; simpl; lia|right].
           split; [lia|exact Hx]. }
       destruct (r_typ r =? 21) eqn:E21.
       { apply Z.eqb_eq in E21.
         destruct p as [|lvl [|a [|x p']]];
-          try (apply (Stop1 110); [intro; lia|reflexivity|congruence]).
+          try (apply (Stop1 110); [intro; lia|reflexivity|(symmetry; exact H) || congruence]).
         destruct (a =? 0) eqn:Ea.
-        { apply Z.eqb_eq in Ea. subst a. apply (Stop1 1); [|reflexivity|congruence].
+        { apply Z.eqb_eq in Ea. subst a. apply (Stop1 1); [|reflexivity|(symmetry; exact H) || congruence].
           intros _. exists lvl. auto. }
         destruct (lvl =? 1).
         { (* warning alert: dropped, continue *)
           destruct (IH (seq + 1) acc trail d st n Hrest ltac:(lia) ltac:(lia)) as [m [Hm [Hg [Hdd Hs]]]]; [|exact H|].
-          - rewrite E1, Hd, E23, app_nil_r. exact Hacc.
+          - rewrite E1, Hd. cbv iota. rewrite app_nil_r. exact Hacc.
           - exists (Datatypes.S m). split; [lia|]. split; [apply (genuine_step _ _ _ _ _ Hseq Hn Hr Hg)|].
             split; [exact Hdd|]. intro Hst. destruct (Hs Hst) as [Hl|[Hm1 Hx]]; [left; simpl; lia|right].
             split; [lia|exact Hx]. }
         assert (Ha : 0 <= a < 256).
         { unfold wf_bytes in Hwf. simpl in Hwf. unfold wf_byte in Hwf. lia. }
-        destruct (lvl =? 2); [apply (Stop1 (300 + a)); [intro; lia|reflexivity|congruence]|].
-        apply (Stop1 110); [intro; lia|reflexivity|congruence]. }
-      destruct (r_typ r =? 22); [apply (Stop1 200); [intro; lia|reflexivity|congruence]|].
-      apply (Stop1 110); [intro; lia|reflexivity|congruence].
+        destruct (lvl =? 2); [apply (Stop1 (300 + a)); [intro; lia|reflexivity|(symmetry; exact H) || congruence]|].
+        apply (Stop1 110); [intro; lia|reflexivity|(symmetry; exact H) || congruence]. }
+      destruct (r_typ r =? 22); [apply (Stop1 200); [intro; lia|reflexivity|(symmetry; exact H) || congruence]|].
+      apply (Stop1 110); [intro; lia|reflexivity|(symmetry; exact H) || congruence].
   Qed.
 
   Lemma deliv_prefix n : exists rest, app_data S = deliv n ++ rest.
@@ -243,7 +243,7 @@ Proof.
     assert (Hk : (1 <= Z.to_nat initPlaintext)%nat) by (unfold initPlaintext; lia).
     remember (Z.to_nat initPlaintext) as k. cbn [concat]. rewrite IH.
     + apply firstn_skipn.
-    + rewrite skipn_length. simpl in *. lia.
+    + rewrite skipn_length. cbn [length] in *. lia.
 Qed.
 Lemma chunks_bound : forall fuel p q, In q (chunks fuel p) -> blen q <= initPlaintext /\ exists a b, p = a ++ q ++ b.
 Proof.
@@ -276,7 +276,7 @@ Proof.
   destruct ((1 <? blen p) && (c_vers cf <=? 769) && (c_kind cf =? 1)).
   - destruct H as [H|H].
     + subst q. split.
-      * apply (Hsub [] (skipn 1 p)). simpl. symmetry. apply firstn_skipn.
+      * apply (Hsub [] (skipn 1 p)). rewrite app_nil_l. symmetry. apply firstn_skipn.
       * unfold blen. rewrite firstn_length. unfold maxPlaintext. lia.
     + destruct (chunks_bound _ _ _ H) as [Hb [a [b E]]]. split.
       * apply (Hsub (firstn 1 p ++ a) b). rewrite <- app_assoc, <- E. symmetry. apply firstn_skipn.
@@ -326,13 +326,17 @@ Proof.
 Qed.
 
 (* ---- the adversary's edits keep every body authentic ---- *)
+Lemma Forall_firstn' {A} (P : A -> Prop) n l : Forall P l -> Forall P (firstn n l).
+Proof. revert l; induction n; intros [|a l] H; simpl; try constructor; inversion H; auto. Qed.
+Lemma Forall_skipn' {A} (P : A -> Prop) n l : Forall P l -> Forall P (skipn n l).
+Proof. revert l; induction n; intros [|a l] H; simpl; try constructor; inversion H; auto. Qed.
+Lemma Forall_nth {A} (P : A -> Prop) l k a : Forall P l -> nth_error l k = Some a -> P a.
+Proof. intros H Hn. rewrite Forall_forall in H. apply H. eapply nth_error_In; eauto. Qed.
+
 Section Adversary.
   Variable cf : cfg.
   Variable S : list (Z * list Z).
   Let auth := authentic sbody Sealed sopen cf S.
-
-  Lemma auth_none t v a b : auth (mkRec t v a b None).
-  Proof. exact I. Qed.
 
   Lemma protect_auth : forall Sr k, (forall j tp, nth_error Sr j = Some tp -> nth_error S (k + j) = Some tp) ->
     Forall auth (protect_from sbody Sealed cf (Z.of_nat k) Sr).
@@ -354,8 +358,133 @@ Section Adversary.
   Lemma upd_auth l i f : (forall r, auth r -> auth (f r)) -> Forall auth l -> Forall auth (upd sbody l i f).
   Proof.
     intros Hf Hl. unfold upd. destruct (in_range sbody i l); [|exact Hl].
-    apply Forall_app. split; [apply Forall_forall; intros x Hx; rewrite Forall_forall in Hl; apply Hl; eapply In_firstn; eauto using firstn_In|].
-    - rewrite Forall_forall in Hl. apply Hl. apply (In_firstn_aux _ _ _ Hx).
-    - idtac.
-  Abort.
+    apply Forall_app. split; [apply Forall_firstn'; exact Hl|].
+    pose proof (Forall_skipn' auth (Z.to_nat i) l Hl) as Hs.
+    destruct (skipn (Z.to_nat i) l) as [|r t]; [constructor|]. inversion Hs; subst. constructor; auto.
+  Qed.
+  Lemma insert_auth l j r : auth r -> Forall auth l -> Forall auth (insert_at sbody l j r).
+  Proof.
+    intros Hr Hl. unfold insert_at. destruct ((0 <=? j) && (j <=? Z.of_nat (length l))); [|exact Hl].
+    apply Forall_app. split; [apply Forall_firstn'; exact Hl|]. constructor; [exact Hr|apply Forall_skipn'; exact Hl].
+  Qed.
+
+  Lemma apply_op_auth l o : Forall auth l -> Forall auth (apply_op sbody l o).
+  Proof.
+    intro Hl. destruct o as [i off mask|i j|i j|i|i t v n|i n]; cbn [apply_op].
+    - apply upd_auth; [intros r Hr; apply flip_auth; exact Hr|exact Hl].
+    - destruct (in_range sbody i l && in_range sbody j l); [|exact Hl].
+      destruct (nth_error l (Z.to_nat i)) as [a|] eqn:Ea; [|exact Hl].
+      destruct (nth_error l (Z.to_nat j)) as [b|] eqn:Eb; [|exact Hl].
+      apply upd_auth; [intros _ _; apply (Forall_nth _ _ _ _ Hl Ea)|].
+      apply upd_auth; [intros _ _; apply (Forall_nth _ _ _ _ Hl Eb)|exact Hl].
+    - destruct (in_range sbody i l); [|exact Hl].
+      destruct (nth_error l (Z.to_nat i)) as [a|] eqn:Ea; [|exact Hl].
+      apply insert_auth; [apply (Forall_nth _ _ _ _ Hl Ea)|exact Hl].
+    - destruct (in_range sbody i l); [|exact Hl].
+      apply Forall_app. split; [apply Forall_firstn'|apply Forall_skipn']; exact Hl.
+    - destruct ((0 <=? n) && (n <? 65536)); [|exact Hl]. apply insert_auth; [exact I|exact Hl].
+    - apply upd_auth; [|exact Hl]. intros r Hr. destruct ((0 <=? n) && (n <? r_actual r)); [exact I|exact Hr].
+  Qed.
+  Lemma apply_script_auth s : forall l, Forall auth l -> Forall auth (apply_script sbody l s).
+  Proof.
+    unfold apply_script. induction s as [|o s IH]; intros l Hl; [exact Hl|]. simpl. apply IH, apply_op_auth, Hl.
+  Qed.
+  Lemma cut_auth : forall l n, Forall auth l -> Forall auth (fst (cut sbody l n)).
+  Proof.
+    induction l as [|r t IH]; intros n Hl; [constructor|]. cbn [cut]. inversion Hl as [|? ? Hr Ht]; subst.
+    destruct (5 + r_actual r <=? n).
+    - specialize (IH (n - (5 + r_actual r)) Ht). destruct (cut sbody t (n - (5 + r_actual r))) as [t' tr].
+      cbn [fst] in *. constructor; assumption.
+    - destruct (n <? 5); cbn [fst]; [constructor|]. constructor; [exact I|constructor].
+  Qed.
+  Lemma apply_cut_auth l n : Forall auth l -> Forall auth (fst (apply_cut sbody l n)).
+  Proof. intro Hl. unfold apply_cut. destruct (n <? 0); [exact Hl|apply cut_auth, Hl]. Qed.
 End Adversary.
+
+Definition S_of (x : c42_in) : list (Z * list Z) := plain_records (i_cfg x) (i_writes x) (i_close x).
+
+Lemma tampered_auth x : Forall (authentic sbody Sealed sopen (i_cfg x) (S_of x)) (fst (tampered_wire x)).
+Proof.
+  unfold tampered_wire. apply apply_cut_auth, apply_script_auth. unfold orig_wire, protect.
+  change 0 with (Z.of_nat 0). apply protect_auth. intros j tp H. exact H.
+Qed.
+
+(* ---- comparing wires ---- *)
+Lemma srec_eqb_refl r : srec_eqb r r = true.
+Proof.
+  unfold srec_eqb. rewrite !Z.eqb_refl. simpl. destruct (r_body r) as [[k t v p]|]; [|reflexivity].
+  simpl. rewrite !Z.eqb_refl, list_Z_eqb_refl. reflexivity.
+Qed.
+Lemma srecs_prefix_firstn n : forall l, srecs_prefix (firstn n l) l = true.
+Proof. induction n; intros [|r l]; simpl; try reflexivity. rewrite srec_eqb_refl, IHn. reflexivity. Qed.
+Lemma length_protect_from B seal cf : forall l k, length (protect_from B seal cf k l) = length l.
+Proof. induction l as [|[t p] l IH]; intro k; simpl; [reflexivity|]. rewrite IH. reflexivity. Qed.
+
+(* ------------------------------------------------------------------------------------------ *)
+(* the executable model (free instance + tamper scripts): prefix and detection *)
+Theorem model_prefix_and_detection : forall x w trail d st n,
+  wf_C42 x = true -> tampered_wire x = (w, trail) ->
+  receive sbody sopen (i_cfg x) w trail = (d, st, n) ->
+  is_prefix d (sent_bytes (i_writes x)) = true /\
+  0 <= n /\ firstn (Z.to_nat n) w = firstn (Z.to_nat n) (orig_wire x) /\
+  (relevant x = true -> tail_dropped x = false -> st <> 1).
+Proof.
+  intros x w trail d st n Hwf Hw Hr.
+  unfold wf_C42 in Hwf. apply andb_true_iff in Hwf. destruct Hwf as [Hwf _].
+  apply andb_true_iff in Hwf. destruct Hwf as [_ Hbytes].
+  pose proof (tampered_auth x) as Ha. rewrite Hw in Ha. simpl in Ha.
+  destruct (receive_prefix_only sbody Sealed sopen (i_cfg x) (S_of x) sopen_seal sopen_bind
+              (plain_records_ok _ _ _ Hbytes) w trail d st n Ha Hr) as [[rest Hp] [Hn [Hg [Hd Hs]]]].
+  split; [|split; [exact Hn|split; [exact Hg|]]].
+  - apply is_prefix_spec. exists rest. unfold S_of in Hp. rewrite app_data_plain in Hp. exact Hp.
+  - intros Hrel Htd Hst. specialize (Hs Hst). unfold tail_dropped, relevant in *. rewrite Hw in *.
+    change (protect sbody Sealed (i_cfg x) (S_of x)) with (orig_wire x) in *.
+    destruct Hs as [Hpre|[Hn1 [lvl Hx]]].
+    + rewrite Hrel in Htd. rewrite Hpre in Htd. rewrite srecs_prefix_firstn in Htd. discriminate.
+    + destruct (plain_records_alert (i_cfg x) (i_writes x) (i_close x) _ _ Hx) as [Hc Hlen].
+      assert (Hall : firstn (Z.to_nat n) (orig_wire x) = orig_wire x).
+      { apply firstn_all2. unfold orig_wire, protect. rewrite length_protect_from. lia. }
+      rewrite Hall in Hg. rewrite Hc in Hrel. rewrite <- Hg in Hrel. rewrite srecs_prefix_firstn in Hrel. discriminate.
+Qed.
+
+Theorem prop_C42_of_model_tampered : forall i x,
+  dec_C42 i = Some x -> wf_C42 x = true -> relevant x = true -> kf_C42 i = 0 ->
+  prop_C42 i (run_C42 i) = true.
+Proof.
+  intros i x Hdec Hwf Hrel Hkf. unfold run_C42, prop_C42, kf_C42 in *. rewrite Hdec in *. rewrite Hwf in *.
+  destruct (tampered_wire x) as [w trail] eqn:Hw.
+  destruct (receive sbody sopen (i_cfg x) w trail) as [[d st] n] eqn:Hr.
+  destruct (model_prefix_and_detection x w trail d st n Hwf Hw Hr) as [Hp [_ [_ Hdet]]].
+  rewrite Hp, Hrel. simpl. simpl in Hkf. destruct (tail_dropped x) eqn:Htd; [discriminate|].
+  apply negb_true_iff, Z.eqb_neq. apply Hdet; [exact Hrel|reflexivity].
+Qed.
+
+(* ---- witnesses ---- *)
+Definition hello_world : val := VL [VB [104; 101; 108; 108; 111]; VB [119; 111; 114; 108; 100]].
+Definition ex_taildrop : val :=
+  VL [VL [VZ 47; VZ 771; VZ 1; VZ 20; VZ 16; VZ 16; VZ 0]; hello_world; VZ 1;
+      VL [VL [VZ 4; VZ 2]; VL [VZ 4; VZ 1]]; VZ (-1); VZ 0; VZ 64].
+Definition ex_flip_tag : val :=
+  VL [VL [VZ 49199; VZ 771; VZ 2; VZ 0; VZ 0; VZ 8; VZ 16]; hello_world; VZ 1;
+      VL [VL [VZ 1; VZ 1; VZ 33; VZ 1]]; VZ (-1); VZ 0; VZ 64].
+Definition ex_replay : val :=
+  VL [VL [VZ 5; VZ 769; VZ 0; VZ 20; VZ 0; VZ 0; VZ 0]; hello_world; VZ 1;
+      VL [VL [VZ 3; VZ 0; VZ 1]]; VZ (-1); VZ 0; VZ 64].
+Definition ex_forged_close : val :=
+  VL [VL [VZ 47; VZ 769; VZ 1; VZ 20; VZ 16; VZ 0; VZ 0]; hello_world; VZ 0;
+      VL [VL [VZ 5; VZ 1; VZ 21; VZ 769; VZ 2]]; VZ (-1); VZ 0; VZ 64].
+Definition ex_clean : val :=
+  VL [VL [VZ 47; VZ 769; VZ 1; VZ 20; VZ 16; VZ 0; VZ 0]; hello_world; VZ 1; VL []; VZ (-1); VZ 0; VZ 64].
+
+Lemma tail_truncation_witness : exists i x,
+  dec_C42 i = Some x /\ wf_C42 x = true /\ relevant x = true /\ kf_C42 i = 1 /\
+  run_C42 i = VL [VB [104; 101; 108; 108; 111]; VZ 1; VZ 1] /\ prop_C42 i (run_C42 i) = false.
+Proof.
+  exists ex_taildrop. eexists. split; [vm_compute; reflexivity|]. vm_compute. repeat split.
+Qed.
+Lemma examples_lemma :
+  run_C42 ex_flip_tag = VL [VB [104; 101; 108; 108; 111]; VZ 120; VZ 1] /\ kf_C42 ex_flip_tag = 0 /\
+  run_C42 ex_replay = VL [VB [104; 101; 108; 108; 111]; VZ 120; VZ 1] /\ kf_C42 ex_replay = 0 /\
+  run_C42 ex_forged_close = VL [VB [104]; VZ 110; VZ 1] /\ kf_C42 ex_forged_close = 0 /\
+  run_C42 ex_clean = VL [VB [104; 101; 108; 108; 111; 119; 111; 114; 108; 100]; VZ 1; VZ 5].
+Proof. vm_compute. repeat split. Qed.
